@@ -2,5 +2,4 @@ CONSTANTS StrictKind = TRUE
           Ulps = 0
 SPECIFICATION TraceSpec
 POSTCONDITION TraceAccepted
-VIEW Pos
 CHECK_DEADLOCK FALSE
